@@ -23,15 +23,8 @@ def main():
     tasks += [('lemma:' + (l.label or str(l.line)), 'seq') for l in spec.sf.lemmas if any(x in ('lemma:' + (l.label or '')) for x in a.fn)]
     ctx = mp.get_context('fork')
     with ctx.Pool(16) as pool:
-        outs = pool.map(CK.phase1, [(t, m, a.timeout, 'quick') for (t, m) in tasks], chunksize=1)
-        jobs = []
-        for o in outs:
-            if o['error']:
-                print('ENGINE-ERROR', o['target'], o['error'][:300])
-                continue
-            for lo in range(0, o['n'], 2):
-                jobs.append((o['target'], o['mode'], a.timeout, 'quick', list(range(lo, min(o['n'], lo + 2)))))
-        outs2 = pool.map(CK.phase2, jobs, chunksize=1)
+        outs = pool.map(CK.phase12, [(t, m, a.timeout, 'quick', set(), 12, None) for (t, m) in tasks], chunksize=1)
+    outs2 = [{'target': o['target'], 'error': o['error'], 'results': o['results']} for o in outs]
     by = {}
     for o2 in outs2:
         if o2['error']:
